@@ -9,6 +9,7 @@ use crate::rng::{derive, fnv, fnv_add, Rng};
 use crate::sched::{self, Ctx, Fault, InjectedAbort, Jump, Policy, Sched, SchedStats};
 use crate::simdoc::{self, Personality};
 use jsonpath_rust::parser::model::JpQuery;
+use jsonpath_rust::query::queryable::Queryable;
 use serde::{Deserialize, Serialize};
 use serde_json::{json, Value};
 use std::cell::RefCell;
@@ -40,6 +41,13 @@ pub enum Op {
     Swap { d: usize, k: usize },
     /// replace the document in slot d by a deep clone of itself
     CloneDoc { d: usize },
+    /// clone the parsed query of slot s, assign the clone's public `segments` field from a fresh parse
+    /// of query q, and keep the edited clone in slot s: from now on slot s stands for query q
+    EditQ { s: usize, q: usize },
+    /// `reference_mut(q used as a path)` on a private deep clone of the document in slot d, a write
+    /// through the handle, and the clone is dropped: the look / update part of a caller's history
+    /// (the shared document itself is never written)
+    RefMut { q: usize, d: usize },
 }
 
 impl Op {
@@ -54,6 +62,8 @@ impl Op {
             Op::Ref { .. } => "Ref",
             Op::Swap { .. } => "Swap",
             Op::CloneDoc { .. } => "CloneDoc",
+            Op::EditQ { .. } => "EditQ",
+            Op::RefMut { .. } => "RefMut",
         }
     }
 }
@@ -95,6 +105,12 @@ pub struct Plan {
     /// thread-locals, if it has any, are already gone when the call is made)
     #[serde(default)]
     pub exit_calls: Vec<(usize, usize)>,
+    /// (client, operation, bytes): while that operation is inside the library, the allocator refuses
+    /// blocks of at least that many bytes. The operation may then end the process (an infallible
+    /// allocation aborts) — the run is repeated without the fault — or complete; if it completes, its
+    /// result is judged like any other.
+    #[serde(default)]
+    pub alloc_faults: Vec<(usize, usize, usize)>,
 }
 
 /// `deep_stack` entries at or above this value mean "burn the stack down until (value - LOW_STACK)
@@ -134,6 +150,12 @@ pub struct Probes {
     pub clock_reads: u64,
     #[serde(default)]
     pub calls_from_tls_destructor: u64,
+    #[serde(default)]
+    pub parsed_queries_edited: u64,
+    #[serde(default)]
+    pub reference_mut_calls: u64,
+    #[serde(default)]
+    pub allocations_refused: u64,
 }
 
 #[derive(Clone, Debug, Serialize, Deserialize)]
@@ -167,6 +189,8 @@ struct World {
     slots: Vec<Mutex<Arc<Shared<Arc<DocBox>>>>>,
     qslots: Vec<Mutex<Option<Arc<Shared<Result<JpQuery, ()>>>>>>,
     qslot_first_debug: Vec<Mutex<Option<String>>>,
+    /// which query text each parsed-query slot stands for right now (EditQ changes it)
+    qslot_cur: Vec<Mutex<usize>>,
     recs: Mutex<Vec<OpRec>>,
     integrity: Mutex<Vec<String>>,
     probes: Mutex<Probes>,
@@ -195,6 +219,7 @@ fn get_pq(w: &World, s: usize) -> Arc<Shared<Result<JpQuery, ()>>> {
             let p = Arc::new(Shared(obs::parse(q)));
             *w.qslot_first_debug[s].lock().unwrap() = Some(obs::obs_parse(&p.0));
             *w.qslots[s].lock().unwrap() = Some(p.clone());
+            *w.qslot_cur[s].lock().unwrap() = w.plan.qslots[s];
             p
         }
     }
@@ -240,6 +265,36 @@ fn exec_op(w: &World, op: &Op) -> (usize, usize, String) {
             };
             (*q, doc.content, o)
         }
+        Op::RefMut { q, d } => {
+            let doc = doc_of(*d);
+            let qs = &w.plan.queries[*q];
+            let o = match &doc.inner {
+                DocInner::V(v) => {
+                    let mut cl: Value = v.clone();
+                    let got: Option<*mut Value> = cl.reference_mut(qs.to_string()).map(|h| h as *mut Value);
+                    match got {
+                        None => "None".to_string(),
+                        Some(p) => {
+                            let at = crate::npath::loc_of(&cl, p as *const Value).map(|l| crate::npath::loc_str(&l)).unwrap_or_else(|| "FOREIGN".to_string());
+                            if at != "FOREIGN" {
+                                // the update itself
+                                unsafe { *p = Value::from("written through reference_mut") };
+                            }
+                            format!("Some({})", at)
+                        }
+                    }
+                }
+                DocInner::S(sd) => {
+                    let mut cl = sd.clone();
+                    match cl.reference_mut(qs.to_string()) {
+                        None => "None".to_string(),
+                        Some(_) => "Some(?)".to_string(),
+                    }
+                }
+            };
+            w.probes.lock().unwrap().reference_mut_calls += 1;
+            (*q, doc.content, o)
+        }
         Op::Parse { s } => {
             let q = &w.plan.queries[w.plan.qslots[*s]];
             let p = Arc::new(Shared(obs::parse(q)));
@@ -250,19 +305,37 @@ fn exec_op(w: &World, op: &Op) -> (usize, usize, String) {
             }
             drop(fd);
             *w.qslots[*s].lock().unwrap() = Some(p);
+            *w.qslot_cur[*s].lock().unwrap() = w.plan.qslots[*s];
             (w.plan.qslots[*s], usize::MAX, o)
+        }
+        Op::EditQ { s, q } => {
+            let pq = get_pq(w, *s);
+            let fresh = obs::parse(&w.plan.queries[*q]);
+            let edited: Result<JpQuery, ()> = match (pq.0.clone(), fresh) {
+                (Ok(mut mine), Ok(other)) => {
+                    mine.segments = other.segments;
+                    Ok(mine)
+                }
+                (_, other) => other,
+            };
+            *w.qslots[*s].lock().unwrap() = Some(Arc::new(Shared(edited)));
+            *w.qslot_cur[*s].lock().unwrap() = *q;
+            w.probes.lock().unwrap().parsed_queries_edited += 1;
+            (*q, usize::MAX, "edited".to_string())
         }
         Op::E { s, d } => {
             let doc = doc_of(*d);
             let pq = get_pq(w, *s);
+            let cur_q = *w.qslot_cur[*s].lock().unwrap();
             let o = match &doc.inner {
                 DocInner::V(v) => obs::obs_e(v, &doc.locs, &pq.0),
                 DocInner::S(sd) => obs::obs_e(sd, &doc.locs, &pq.0),
             };
-            (w.plan.qslots[*s], doc.content, o)
+            (cur_q, doc.content, o)
         }
         Op::CloneQ { s, t } => {
             let pq = get_pq(w, *s);
+            let cur_q = *w.qslot_cur[*s].lock().unwrap();
             let cl: Result<JpQuery, ()> = pq.0.clone();
             // what the clone is worth is judged by the evaluations made through it (E on slot t)
             let o = "cloned";
@@ -273,7 +346,8 @@ fn exec_op(w: &World, op: &Op) -> (usize, usize, String) {
                 }
             }
             *w.qslots[*t].lock().unwrap() = Some(Arc::new(Shared(cl)));
-            (w.plan.qslots[*s], usize::MAX, o.to_string())
+            *w.qslot_cur[*t].lock().unwrap() = cur_q;
+            (cur_q, usize::MAX, o.to_string())
         }
         Op::Swap { d, k } => {
             let content = w.plan.slots[*d][*k % w.plan.slots[*d].len()];
@@ -411,6 +485,8 @@ fn run_client_op(w: &Arc<World>, c: usize, j: usize) {
     let w2 = w.clone();
     let opc = op.clone();
     let depth_kib = w.plan.deep_stack.iter().find(|(cc, jj, _)| *cc == c && *jj == j).map(|(_, _, k)| *k).unwrap_or(0);
+    let refuse_from = w.plan.alloc_faults.iter().find(|(cc, jj, _)| *cc == c && *jj == j).map(|(_, _, b)| *b).unwrap_or(0);
+    crate::allocseam::arm(refuse_from);
     let res = std::panic::catch_unwind(std::panic::AssertUnwindSafe(move || {
         if depth_kib >= LOW_STACK {
             until_remaining(depth_kib - LOW_STACK, stack_low(), &mut || exec_op(&w2, &opc))
@@ -418,6 +494,7 @@ fn run_client_op(w: &Arc<World>, c: usize, j: usize) {
             at_depth(depth_kib, &mut || exec_op(&w2, &opc))
         }
     }));
+    crate::allocseam::arm(0);
     let aborted_before = sched::with_ctx(|x| {
         x.in_op = false;
         x.aborted_before
@@ -430,9 +507,10 @@ fn run_client_op(w: &Arc<World>, c: usize, j: usize) {
         Ok((q, content, o)) => (q, content, "done", o),
         Err(p) => {
             let (q, d) = match &op {
-                Op::Q { q, d } | Op::P { q, d } | Op::W { q, d } | Op::Ref { q, d } => (*q, *d),
-                Op::E { s, d } => (w.plan.qslots[*s], *d),
+                Op::Q { q, d } | Op::P { q, d } | Op::W { q, d } | Op::Ref { q, d } | Op::RefMut { q, d } => (*q, *d),
+                Op::E { s, d } => (*w.qslot_cur[*s].lock().unwrap(), *d),
                 Op::Parse { s } | Op::CloneQ { s, .. } => (w.plan.qslots[*s], usize::MAX),
+                Op::EditQ { q, .. } => (*q, usize::MAX),
                 _ => (usize::MAX, usize::MAX),
             };
             let _ = d;
@@ -504,6 +582,7 @@ pub fn execute(plan: Plan, full: bool) -> RunResult {
         slots,
         qslots: plan.qslots.iter().map(|_| Mutex::new(None)).collect(),
         qslot_first_debug: plan.qslots.iter().map(|_| Mutex::new(None)).collect(),
+        qslot_cur: plan.qslots.iter().map(|q| Mutex::new(*q)).collect(),
         recs: Mutex::new(vec![]),
         integrity: Mutex::new(vec![]),
         probes: Mutex::new(Probes::default()),
@@ -593,6 +672,7 @@ pub fn execute(plan: Plan, full: bool) -> RunResult {
     let mut probes = w.probes.lock().unwrap().clone();
     probes.threads_used = threads_used.load(std::sync::atomic::Ordering::Relaxed);
     probes.switch_at_regex_pre = st.switches_by_site.get(8).copied().unwrap_or(0);
+    probes.allocations_refused = crate::allocseam::refused();
     probes.clock_seam = sched::clock_seam_present();
     probes.clock_reads = sched::clock_reads().unwrap_or(0);
     // plan-shape probes
@@ -900,6 +980,7 @@ pub fn spawn_with_input(args: &[&str], input: &str, timeout_s: u64) -> Result<St
 /// Set after three stalled runs: the rest of the batch runs with atomic operations from the start.
 static FORCE_ATOMIC: std::sync::atomic::AtomicBool = std::sync::atomic::AtomicBool::new(false);
 pub static STALLED_RUNS: std::sync::atomic::AtomicU64 = std::sync::atomic::AtomicU64::new(0);
+pub static ALLOC_ABORTS: std::sync::atomic::AtomicU64 = std::sync::atomic::AtomicU64::new(0);
 
 /// The same plan with operations made atomic: switches at operation boundaries only, so that no lock
 /// of the system under test can be held by a parked client.
@@ -920,6 +1001,47 @@ fn run_plan_once(plan: &Plan, full: bool, timeout_s: u64) -> Result<RunResult, S
 /// Err("timeout") only if the run also stalls with atomic operations; Err("crashed: …") if the run
 /// process was killed by a signal (twice).
 pub fn run_plan(plan: &Plan, full: bool) -> Result<RunResult, String> {
+    use std::sync::atomic::Ordering;
+    if !plan.alloc_faults.is_empty() {
+        // a refused block the system under test cannot do without ends the process (Rust aborts on a
+        // failed infallible allocation): a legitimate outcome of the fault. The run is then made again
+        // without the fault, so that everything else about it is still checked.
+        return match run_plan_inner(plan, full) {
+            Ok(r) => Ok(r),
+            Err(e) => {
+                if e.contains("signal") || e.starts_with("crashed") {
+                    ALLOC_ABORTS.fetch_add(1, Ordering::Relaxed);
+                }
+                let mut p = plan.clone();
+                p.alloc_faults.clear();
+                run_plan_inner(&p, full)
+            }
+        };
+    }
+    run_plan_inner(plan, full)
+}
+
+/// The fingerprint of a re-execution for the determinism comparison (`atomic`: the first execution
+/// was made with atomic operations after a stall; like is compared with like).
+pub fn rerun_fingerprint(plan: &Plan, atomic: bool) -> Result<u64, String> {
+    let once = |p: &Plan| -> Result<u64, String> {
+        if atomic {
+            run_plan_once(&atomic_variant(p), false, 60).map(|r| r.fingerprint)
+        } else {
+            run_plan_once(p, false, 20).map(|r| r.fingerprint)
+        }
+    };
+    match once(plan) {
+        Err(e) if e.contains("signal") && !plan.alloc_faults.is_empty() => {
+            let mut p = plan.clone();
+            p.alloc_faults.clear();
+            once(&p)
+        }
+        r => r,
+    }
+}
+
+fn run_plan_inner(plan: &Plan, full: bool) -> Result<RunResult, String> {
     use std::sync::atomic::Ordering;
     if FORCE_ATOMIC.load(Ordering::Relaxed) && plan.schedule.is_none() {
         return run_plan_once(&atomic_variant(plan), full, 60).map(|mut r| {
@@ -1378,6 +1500,8 @@ pub fn gen_plan_opt(c: &Corpus, run_seed: u64, allow_stress: bool) -> (Plan, Pla
     let w_parse = 1 + rng.below(3) as u32;
     let w_e = 2 + rng.below(4) as u32;
     let w_ref = rng.below(2) as u32;
+    // one run in six edits stored parsed queries through their public field
+    let w_edit = if !stress && rng.chance(1, 6) { 1u32 } else { 0 };
     let mut clients = vec![];
     for _ in 0..n_clients {
         let n_ops = if stress { 400 + rng.below(500) } else if crowd { 2 + rng.below(5) } else if has_records { 3 + rng.below(6) } else { 3 + rng.below(38) };
@@ -1389,7 +1513,7 @@ pub fn gen_plan_opt(c: &Corpus, run_seed: u64, allow_stress: bool) -> (Plan, Pla
             // in a long-lived run two operations in three take the next fresh filler text
             let q = if stress && rng.chance(2, 3) { n_normal_q + rng.below(n_all_q - n_normal_q) } else { rng.below(n_normal_q) };
             let s = rng.below(n_qslots);
-            let op = match rng.weighted(&[5, 4, 5, w_parse, w_e, 1, w_ref, w_swap, w_clone_doc]) {
+            let op = match rng.weighted(&[5, 4, 5, w_parse, w_e, 1, w_ref, w_swap, w_clone_doc, w_edit, if has_records || stress { 0 } else { w_ref }]) {
                 0 => Op::Q { q, d },
                 1 => Op::P { q, d },
                 2 => Op::W { q, d },
@@ -1401,11 +1525,15 @@ pub fn gen_plan_opt(c: &Corpus, run_seed: u64, allow_stress: bool) -> (Plan, Pla
                 }
                 6 => Op::Ref { q, d },
                 7 => Op::Swap { d, k: rng.below(slots[d].len()) },
+                9 => Op::EditQ { s, q: rng.below(n_normal_q) },
+                10 => Op::RefMut { q, d },
                 _ => Op::CloneDoc { d },
             };
             let ok = match &op {
-                Op::Q { q, d } | Op::P { q, d } | Op::W { q, d } | Op::Ref { q, d } => slot_ok(*q, *d),
+                Op::Q { q, d } | Op::P { q, d } | Op::W { q, d } | Op::Ref { q, d } | Op::RefMut { q, d } => slot_ok(*q, *d),
                 Op::E { s, d } => slot_ok(qslots[*s], *d),
+                // an edited slot may be evaluated on any document of the run
+                Op::EditQ { q, .. } => (0..n_slots).all(|d| slot_ok(*q, d)),
                 _ => true,
             };
             if ok {
@@ -1567,6 +1695,33 @@ pub fn gen_plan_opt(c: &Corpus, run_seed: u64, allow_stress: bool) -> (Plan, Pla
             }
         }
     }
+    // one run in ten: allocation failure inside one to three operations, preferably ones that filter
+    // (a filter is where an implementation is tempted to size a buffer by the number of children)
+    let mut alloc_faults = vec![];
+    if !stress && !has_records && rng.chance(1, 10) {
+        let query_text = |o: &Op| -> Option<&String> {
+            match o {
+                Op::Q { q, .. } | Op::P { q, .. } | Op::W { q, .. } => Some(&c.queries[query_map[*q]]),
+                Op::E { s, .. } => Some(&c.queries[query_map[qslots_ref[*s]]]),
+                _ => None,
+            }
+        };
+        for _ in 0..(1 + rng.below(5)) {
+            let cl = rng.below(n_clients);
+            let all: Vec<usize> = (0..clients[cl].len()).filter(|j| query_text(&clients[cl][*j]).is_some()).collect();
+            if all.is_empty() {
+                continue;
+            }
+            let filtering: Vec<usize> = all.iter().copied().filter(|j| query_text(&clients[cl][*j]).map(|t| t.contains('?')).unwrap_or(false)).collect();
+            let j = if !filtering.is_empty() && rng.chance(3, 4) { *rng.pick(&filtering) } else { *rng.pick(&all) };
+            if !alloc_faults.iter().any(|(a, b, _): &(usize, usize, usize)| *a == cl && *b == j) {
+                // a string entry point parses inside the call (the parser's token queue alone takes a few
+                // KiB): smaller limits only make sense for evaluations of a parsed query
+                let bytes = if matches!(clients[cl][j], Op::E { .. }) { *rng.pick(&[256usize, 512, 1 << 10, 2 << 10, 4 << 10, 16 << 10, 64 << 10]) } else { *rng.pick(&[4usize << 10, 16 << 10, 64 << 10, 256 << 10, 1 << 20]) };
+                alloc_faults.push((cl, j, bytes));
+            }
+        }
+    }
     // one run in twelve: a client makes its last call from a thread-local destructor
     let mut exit_calls = vec![];
     if !stress && rng.chance(1, 12) {
@@ -1594,6 +1749,7 @@ pub fn gen_plan_opt(c: &Corpus, run_seed: u64, allow_stress: bool) -> (Plan, Pla
         reenter_get: repr > 0 && !stress && !has_records && !has_deep && rng.chance(1, 4),
         clock_jumps,
         exit_calls,
+        alloc_faults,
     };
     // fillers select nothing whatever the document (their names occur nowhere), so they need no cold
     // process each; a sample of them is computed cold anyway, to check exactly that assumption
@@ -1605,10 +1761,19 @@ pub fn gen_plan_opt(c: &Corpus, run_seed: u64, allow_stress: bool) -> (Plan, Pla
 /// (plan content idx, plan query idx) pairs whose cold result the plan may need.
 pub fn plan_keys(plan: &Plan) -> BTreeSet<(usize, usize)> {
     let mut keys = BTreeSet::new();
+    // a parsed-query slot may stand for any of the plan's edit targets by the time it is evaluated
+    let edit_qs: BTreeSet<usize> = plan.clients.iter().flatten().filter_map(|o| if let Op::EditQ { q, .. } = o { Some(*q) } else { None }).collect();
     for ops in &plan.clients {
         for op in ops {
+            if let Op::E { d, .. } = op {
+                for ct in &plan.slots[*d] {
+                    for q in &edit_qs {
+                        keys.insert((*ct, *q));
+                    }
+                }
+            }
             match op {
-                Op::Q { q, d } | Op::P { q, d } | Op::W { q, d } | Op::Ref { q, d } => {
+                Op::Q { q, d } | Op::P { q, d } | Op::W { q, d } | Op::Ref { q, d } | Op::RefMut { q, d } => {
                     for ct in &plan.slots[*d] {
                         keys.insert((*ct, *q));
                     }
@@ -1656,6 +1821,8 @@ fn expected_for<'a>(kind: &str, cold: &'a ColdRes) -> Option<&'a str> {
         "E" => &cold.e,
         "Parse" => &cold.parse,
         "Ref" => &cold.r#ref,
+        // reference_mut resolves the same text to the same location (SimDoc: neither is provided)
+        "RefMut" => &cold.r#ref,
         _ => return None,
     })
 }
@@ -1669,7 +1836,8 @@ pub fn judge(plan: &Plan, r: &RunResult, table: &ColdTable) -> Vec<Mismatch> {
         if rec.status == "aborted" {
             continue;
         }
-        if rec.kind == "CloneQ" {
+        if rec.kind == "CloneQ" || rec.kind == "EditQ" {
+            // judged by the evaluations made through the clone / the edited query
             continue;
         }
         if rec.q == usize::MAX {
@@ -1681,7 +1849,7 @@ pub fn judge(plan: &Plan, r: &RunResult, table: &ColdTable) -> Vec<Mismatch> {
             vec![rec.content]
         } else {
             match &plan.clients[rec.c][rec.j] {
-                Op::Q { d, .. } | Op::P { d, .. } | Op::W { d, .. } | Op::Ref { d, .. } | Op::E { d, .. } => plan.slots[*d].clone(),
+                Op::Q { d, .. } | Op::P { d, .. } | Op::W { d, .. } | Op::Ref { d, .. } | Op::RefMut { d, .. } | Op::E { d, .. } => plan.slots[*d].clone(),
                 _ => vec![plan.slots[0][0]],
             }
         };
@@ -1749,6 +1917,7 @@ fn remove_op(plan: &Plan, c: usize, from: usize, to: usize) -> Plan {
     p.clients[c].drain(from..to);
     p.clock_jumps = plan.clock_jumps.iter().filter_map(|j| if j.c != c { Some(j.clone()) } else if j.op >= from && j.op < to { None } else if j.op >= to { Some(Jump { c: j.c, op: j.op - (to - from), nth: j.nth, secs: j.secs }) } else { Some(j.clone()) }).collect();
     p.deep_stack = plan.deep_stack.iter().filter_map(|(cc, j, k)| if *cc != c { Some((*cc, *j, *k)) } else if *j >= from && *j < to { None } else if *j >= to { Some((*cc, j - (to - from), *k)) } else { Some((*cc, *j, *k)) }).collect();
+    p.alloc_faults = plan.alloc_faults.iter().filter_map(|(cc, j, k)| if *cc != c { Some((*cc, *j, *k)) } else if *j >= from && *j < to { None } else if *j >= to { Some((*cc, j - (to - from), *k)) } else { Some((*cc, *j, *k)) }).collect();
     p.exit_calls = plan.exit_calls.iter().map(|(cc, r)| if *cc != c { (*cc, *r) } else if *r >= to { (*cc, r - (to - from)) } else if *r >= from { (*cc, from) } else { (*cc, *r) }).collect();
     // faults refer to op indices: shift or drop
     p.faults = plan
@@ -1772,6 +1941,7 @@ fn remove_op(plan: &Plan, c: usize, from: usize, to: usize) -> Plan {
 fn remove_client(plan: &Plan, c: usize) -> Plan {
     let mut p = plan.clone();
     p.clients.remove(c);
+    p.alloc_faults = plan.alloc_faults.iter().filter(|(cc, _, _)| *cc != c).map(|(cc, j, k)| (if *cc > c { cc - 1 } else { *cc }, *j, *k)).collect();
     p.exit_calls = plan.exit_calls.iter().filter(|(cc, _)| *cc != c).map(|(cc, r)| (if *cc > c { cc - 1 } else { *cc }, *r)).collect();
     p.deep_stack = plan.deep_stack.iter().filter(|(cc, _, _)| *cc != c).map(|(cc, j, k)| (if *cc > c { cc - 1 } else { *cc }, *j, *k)).collect();
     p.clock_jumps = plan.clock_jumps.iter().filter(|j| j.c != c).map(|j| Jump { c: if j.c > c { j.c - 1 } else { j.c }, op: j.op, nth: j.nth, secs: j.secs }).collect();
@@ -1826,6 +1996,11 @@ pub fn minimise(plan: &Plan, table: &mut ColdTable, class: &str, kind: &str, bud
         if !try_cand(cand, &mut cur, &mut spent, table) {
             i += 1;
         }
+    }
+    if !cur.alloc_faults.is_empty() {
+        let mut cand = cur.clone();
+        cand.alloc_faults.clear();
+        try_cand(cand, &mut cur, &mut spent, table);
     }
     if !cur.exit_calls.is_empty() {
         let mut cand = cur.clone();
@@ -2070,6 +2245,7 @@ pub fn drive(tier_name: &str, seed: u64, workers: usize) -> i32 {
     let mut faults_planned = 0u64;
     let mut deep_ops = 0u64;
     let mut low_stack_ops = 0u64;
+    let mut alloc_fault_ops = 0u64;
     let mut faults_fired = 0u64;
     let mut sigs: BTreeSet<u64> = BTreeSet::new();
     let mut nontrivial_runs = 0u64;
@@ -2203,6 +2379,10 @@ pub fn drive(tier_name: &str, seed: u64, workers: usize) -> i32 {
             *probes_sum.entry("clock_jumps_fired").or_insert(0) += r.sched.clock_jumps_fired;
             *probes_sum.entry("clock_reads_by_the_run_processes").or_insert(0) += r.probes.clock_reads;
             *probes_sum.entry("calls_from_a_thread_local_destructor").or_insert(0) += r.probes.calls_from_tls_destructor;
+            *probes_sum.entry("parsed_queries_edited_through_their_public_field").or_insert(0) += r.probes.parsed_queries_edited;
+            *probes_sum.entry("reference_mut_calls_on_private_clones").or_insert(0) += r.probes.reference_mut_calls;
+            *probes_sum.entry("allocations_refused_in_runs_that_completed").or_insert(0) += r.probes.allocations_refused;
+            alloc_fault_ops += plan.alloc_faults.len() as u64;
             if r.probes.clock_seam {
                 *probes_sum.entry("runs_with_the_clock_seam_preloaded").or_insert(0) += 1;
             }
@@ -2245,11 +2425,7 @@ pub fn drive(tier_name: &str, seed: u64, workers: usize) -> i32 {
         // that way; a re-execution that stalls is skipped, not judged
         let res = par_map(&sample, 7, |(i, _, atomic)| {
             let (p, _) = gen_plan(&corpus, derive(seed, "run", *i));
-            if *atomic {
-                run_plan_once(&atomic_variant(&p), false, 60).map(|r| r.fingerprint)
-            } else {
-                run_plan_once(&p, false, 20).map(|r| r.fingerprint)
-            }
+            rerun_fingerprint(&p, *atomic)
         });
         for ((i, fp, _), r) in sample.iter().zip(res) {
             match r {
@@ -2396,7 +2572,8 @@ pub fn drive(tier_name: &str, seed: u64, workers: usize) -> i32 {
             "low_caller_stack": {"what": "an operation over a small document is executed with only 64-512 KiB of the caller's stack left (a small thread stack, or a caller deep in its own recursion)", "operations": low_stack_ops},
             "call_from_thread_local_destructor": {"what": "a client's last operation is made while its thread is being torn down, from the destructor of a thread-local value of the caller's own registered before one of its operations", "calls": probes_sum.get("calls_from_a_thread_local_destructor").copied().unwrap_or(0)},
             "document_dropped_and_rebuilt": {"rebuilds": probes_sum.get("doc_rebuilds").copied().unwrap_or(0), "at_the_same_address": probes_sum.get("doc_rebuilt_at_same_address").copied().unwrap_or(0)},
-            "not_applicable": "network, disk, allocation failure: the library has no such surface"
+            "allocation_failure": {"what": "while an operation is inside the library the allocator refuses blocks of at least 256 B - 1 MiB; the process may abort (the run is then repeated without the fault) or the operation completes and is judged as usual", "operations_planned": alloc_fault_ops, "blocks_refused_in_runs_that_completed": probes_sum.get("allocations_refused_in_runs_that_completed").copied().unwrap_or(0), "runs_ended_by_the_fault_and_repeated_without_it": ALLOC_ABORTS.load(std::sync::atomic::Ordering::Relaxed)},
+            "not_applicable": "network, disk: the library has no such surface"
         },
         "policies": policies,
         "document_representation": reprs,
